@@ -4,8 +4,61 @@ pub trait RngCore {
     fn next_u64(&mut self) -> u64;
     fn fill_bytes(&mut self, dest: &mut [u8]);
 }
-pub trait Rng: RngCore {}
+/// `Rng::gen` / `Rng::fill` / `Rng::gen_range` (subset): every value is built from fresh logged bytes
+pub trait Rng: RngCore {
+    fn gen<T: FromRng>(&mut self) -> T
+    where
+        Self: Sized,
+    {
+        T::from_rng_bytes(self)
+    }
+    fn fill(&mut self, dest: &mut [u8]) {
+        self.fill_bytes(dest)
+    }
+    fn gen_range(&mut self, range: core::ops::Range<u32>) -> u32
+    where
+        Self: Sized,
+    {
+        assert!(range.start < range.end, "cannot sample empty range");
+        range.start + self.next_u32() % (range.end - range.start)
+    }
+}
 impl<T: RngCore> Rng for T {}
+
+pub trait FromRng {
+    fn from_rng_bytes<R: RngCore>(rng: &mut R) -> Self;
+}
+impl FromRng for u8 {
+    fn from_rng_bytes<R: RngCore>(rng: &mut R) -> Self {
+        let mut b = [0u8; 1];
+        rng.fill_bytes(&mut b);
+        b[0]
+    }
+}
+impl FromRng for u16 {
+    fn from_rng_bytes<R: RngCore>(rng: &mut R) -> Self {
+        let mut b = [0u8; 2];
+        rng.fill_bytes(&mut b);
+        u16::from_le_bytes(b)
+    }
+}
+impl FromRng for u32 {
+    fn from_rng_bytes<R: RngCore>(rng: &mut R) -> Self {
+        rng.next_u32()
+    }
+}
+impl FromRng for u64 {
+    fn from_rng_bytes<R: RngCore>(rng: &mut R) -> Self {
+        rng.next_u64()
+    }
+}
+impl<const N: usize> FromRng for [u8; N] {
+    fn from_rng_bytes<R: RngCore>(rng: &mut R) -> Self {
+        let mut b = [0u8; N];
+        rng.fill_bytes(&mut b);
+        b
+    }
+}
 
 #[derive(Clone, Debug)]
 pub struct ThreadRng {
